@@ -168,7 +168,7 @@ class Builder(object):
                 kw['weighting'] = qf(w['q'][1][0])
             if len(shape) == 1:
                 return odl.uniform_discr(mn[0], mx[0], shape[0], dtype=DT[tn_d['s']], exponent=ex,
-                                         nodes_on_bdry=nob[0] if nob[0][0] != nob[0][1] else nob[0][0], **kw)
+                                         nodes_on_bdry=[nob[0]] if nob[0][0] != nob[0][1] else nob[0][0], **kw)
             return odl.uniform_discr(mn, mx, shape, dtype=DT[tn_d['s']], exponent=ex, nodes_on_bdry=nob, **kw)
         return odl.DiscretizedSpace(self.build(part_d, copy), self.tensor(tn_d, copy))
 
